@@ -129,6 +129,7 @@ def run_config(ctx, prog, features, label='default'):
     if label == 'default':
         ctx.floor('enumeration', 'panic_capable_sites', len(sites), 40)
         fixture_control(ctx)
+        zoo_control(ctx)
     lem = Lemmas(ctx, prog)
     manual = load_manual()
     n_dis = 0
@@ -210,6 +211,48 @@ def fixture_control(ctx):
             if fn == 'raw':
                 continue
             ctx.check(fn in undischarged, 'fixture', 'positive-control:' + fn, 'missed', 'positive control: the unguarded construct in fixture fn `%s` is enumerated and not discharged' % fn)
+    finally:
+        shutil.rmtree(d, ignore_errors=True)
+
+
+def zoo_control(ctx):
+    """negative control for the std classification: 48 functions using documented-total std APIs must produce no undischarged
+    site; 8 functions calling caller-contract APIs with unchecked arguments must each be reported"""
+    import shutil, subprocess, tempfile
+    import extract
+    from mirlib import Program
+    d = tempfile.mkdtemp(prefix='evx-zoo-')
+    try:
+        sysroot = extract.nightly_sysroot()
+        env = dict(os.environ, EVX_OUT=d, EVX_CRATE='std_zoo', EVX_REPO_ROOT=os.path.join(extract.HERE, 'fixtures'))
+        env['LD_LIBRARY_PATH'] = os.path.join(sysroot, 'lib') + ':' + env.get('LD_LIBRARY_PATH', '')
+        r = subprocess.run([extract.DRIVER, os.path.join(extract.HERE, 'fixtures', 'std_zoo.rs'), '--crate-type', 'lib', '--edition', '2021', '--crate-name', 'std_zoo',
+                            '--sysroot', sysroot, '-C', 'overflow-checks=on', '-C', 'debug-assertions=on', '-Zmir-opt-level=0', '--emit=metadata', '-o', os.path.join(d, 'libz.rmeta'), '-Awarnings'], env=env, capture_output=True, text=True)
+        if r.returncode != 0 or not os.path.exists(os.path.join(d, 'reach.json')):
+            ctx.unrecognised('fixture', 'std_zoo', 'build', 'std zoo fixture could not be analysed: %s' % r.stderr[-300:])
+            return
+        p = Program.load(os.path.join(d, 'facts.json'), os.path.join(d, 'reach.json'))
+
+        class Quiet:
+            counters = {}
+            def trust(self, *a): pass
+            def ok(self, *a, **k): pass
+            def violation(self, *a, **k): pass
+            def unrecognised(self, *a, **k): pass
+        q = Quiet()
+        sites, _ = enumerate_sites(q, p, ())
+        lem = Lemmas(q, p)
+        flagged = set()
+        for site in sites:
+            if not any(_try(g, q, p, lem, site) for g in GUARDS):
+                fn = short(site['fn'].path)
+                parent = site['fn'].j.get('parent')
+                flagged.add(short(parent) if parent else fn)
+        total = sorted(f for f in flagged if f.startswith('a'))
+        ctx.check(not total, 'fixture', 'std-zoo:total-apis-silent', 'false-alarm', 'negative control: 48 functions built from documented-total std APIs raise no alarm (flagged: %s)' % total)
+        want = {'p_clamp', 'p_windows', 'p_to_digit', 'p_truncate', 'p_remove', 'p_div', 'p_pow', 'p_expect', 'p_wrapping_div'}
+        missing = sorted(want - flagged)
+        ctx.check(not missing, 'fixture', 'std-zoo:caller-contract-apis-reported', 'missed', 'positive control: caller-contract std APIs with unchecked arguments are reported (missed: %s)' % missing)
     finally:
         shutil.rmtree(d, ignore_errors=True)
 
